@@ -211,7 +211,31 @@ def check_property(verif, repo, prop, tier, seed, use_cache=True, write_evidence
     try:
         return _check(verif, repo, prop, tier, seed, use_cache, write_evidence, t0)
     except Undecided as u:
-        eprint('UNDECIDED property=%s: %s' % (prop, u))
+        # the proof is out of reach for this tree (restructured function, unsupported construct, resource limit ...): a BOUNDED
+        # directed search through the public API of the real crate stands in; it can only refute (a concrete failing input is
+        # definitive), never establish the property
+        w = None
+        try:
+            from . import witness as wmod
+            if prop in wmod.SEARCHABLE:
+                w = wmod.search(verif, repo, prop, {}, tier)
+        except Exception as ex:
+            eprint('bounded stand-in unavailable: %s' % ex)
+        if w and w.get('found'):
+            os.makedirs(os.path.join(verif, 'replays'), exist_ok=True)
+            rp = os.path.join(verif, 'replays', '%s-undecided-%s.json' % (prop, hashlib.sha256(json.dumps(w, sort_keys=True).encode()).hexdigest()[:10]))
+            json.dump({'property': prop, 'failed_obligations': [{'obligation': 'bounded-stand-in', 'repo_location': None, 'verus_message': '',
+                       'verus_output': 'proof undecided: %s\nthe bounded directed search through the public API found a failing input' % u}],
+                       'witness': w, 'replay_cmd': './check %s --replay %s' % (prop, os.path.relpath(rp, verif))}, open(rp, 'w'), indent=1)
+            print('VIOLATION property=%s replay=%s' % (prop, rp))
+            if write_evidence:
+                ev = {'property_id': prop, 'tier': tier, 'seed': seed, 'level': 'other',
+                      'coverage': {'explanation': 'proof undecided (%s); bounded stand-in: %s' % (u, w.get('observed')), 'bound': w.get('observed')},
+                      'assumptions': assumptions_text(prop), 'wall_s': round(time.time() - t0, 2), 'violations': 1}
+                os.makedirs(os.path.join(verif, 'evidence'), exist_ok=True)
+                json.dump(ev, open(os.path.join(verif, 'evidence', prop + '.json'), 'w'), indent=1)
+            return 1
+        eprint('UNDECIDED property=%s: %s%s' % (prop, u, (' (bounded stand-in found nothing: %s)' % w.get('observed')) if w and w.get('searched') else ''))
         if write_evidence:
             write_undecided_evidence(verif, prop, tier, seed, str(u), time.time() - t0)
         return 2
@@ -271,6 +295,7 @@ def _check(verif, repo, prop, tier, seed, use_cache, write_evidence, t0, selftes
     findings, fixed = load_known(verif)
     failed = {}
     undecided = []
+    restructured_hits = {}
     for e in r1['errors']:
         props, name = props_of_error(main_b, specs_by_key, e)
         if prop not in props:
@@ -278,9 +303,17 @@ def _check(verif, repo, prop, tier, seed, use_cache, write_evidence, t0, selftes
         if e['kind'] == 'rlimit':
             undecided.append((name, e))
             continue
+        if e.get('fn') in main_b.restructured:
+            # the loop structure of this function changed: without new loop invariants nothing about it can be proved,
+            # so a failed obligation here says "proof needs rework", not "property violated"
+            restructured_hits.setdefault(e.get('fn'), []).append(name)
+            continue
         failed.setdefault(name, []).append(e)
     if undecided and not failed:
         raise Undecided('resource limit exceeded on %s' % ', '.join(n for n, _ in undecided))
+    if restructured_hits and not failed:
+        raise Undecided('; '.join('%s was restructured (%s): %d obligations serving %s can no longer be discharged and need new loop invariants'
+                                  % (k, main_b.restructured[k], len(v), prop) for k, v in restructured_hits.items()))
     if main_b.part == 'zorro' and main_b.zorro_gate is False and not failed:
         raise Undecided('the constants declared in src/curve/zorro differ from the ones the primality / group-order certificates in '
                         '/verif/contracts/zorro_cert.json were computed for; the ungated necessary conditions (Fermat tests, generator on curve, '
@@ -407,10 +440,14 @@ def thorough_extras(verif, repo, prop, seed, use_cache, ev, r1):
             meta = {}
         scratch = tempfile.mkdtemp(prefix='verif-selftest-')
         try:
-            shutil.copytree(os.path.join(repo, 'src'), os.path.join(scratch, 'src'))
-            for f in ('Cargo.toml', 'Cargo.lock'):
-                if os.path.exists(os.path.join(repo, f)):
-                    shutil.copy(os.path.join(repo, f), scratch)
+            for f in os.listdir(repo):
+                if f in ('target', '.git'):
+                    continue
+                sp = os.path.join(repo, f)
+                if os.path.isdir(sp):
+                    shutil.copytree(sp, os.path.join(scratch, f))
+                else:
+                    shutil.copy(sp, scratch)
             p = subprocess.run(['git', 'apply', '--include=src/*', patch], cwd=scratch, capture_output=True, text=True)
             if p.returncode != 0:
                 st.append({'change': os.path.basename(d), 'result': 'skipped: patch no longer applies to the current tree'})
